@@ -6,9 +6,11 @@ import (
 	"crypto"
 	"crypto/x509"
 	"encoding/asn1"
+	"encoding/pem"
 	"errors"
 	"fmt"
 	"net/http"
+	"os"
 	"sync"
 	"time"
 
@@ -30,6 +32,7 @@ type tsaWorld struct {
 	otherRoot, otherLeaf      *pki.Cert
 	variants                  map[string][]*pki.Cert // defective TSA chains by name
 	pool                      *x509.CertPool
+	hostTrustsTSA             bool // the process-wide system pool was loaded from a file holding the TSA root
 }
 
 var (
@@ -95,6 +98,18 @@ func tsaGetWorld() *tsaWorld {
 		w.variants["root-without-key-usage(chain 2)"] = []*pki.Cert{pki.Issue(pki.TSALeafTmpl("tsa leaf under ku-less root"), pki.K("p256-f"), badRoot, nil), badRoot}
 		in3 := pki.Issue(pki.CATmpl("tsa inter under ku-less root"), pki.K("p384-b"), badRoot, nil)
 		w.variants["root-without-key-usage(chain 3)"] = []*pki.Cert{pki.Issue(pki.TSALeafTmpl("tsa leaf under ku-less root 3"), pki.K("p256-g"), in3, nil), in3, badRoot}
+		// the host's own trust store (what crypto/x509 falls back to when no pool is named) is made to contain the TSA root: a caller
+		// who names NO TSA roots has not thereby named the host's. The store is read once per process, from the file named here.
+		if f, err := os.CreateTemp("", "verif-c15-host-roots-*.pem"); err == nil {
+			pem.Encode(f, &pem.Block{Type: "CERTIFICATE", Bytes: w.root.DER})
+			f.Close()
+			os.Setenv("SSL_CERT_FILE", f.Name())
+			os.Setenv("SSL_CERT_DIR", "/nonexistent-verif-c15")
+			if sp, err := x509.SystemCertPool(); err == nil && sp != nil {
+				w.hostTrustsTSA = true
+			}
+			os.Remove(f.Name())
+		}
 		tsaW = w
 	})
 	return tsaW
@@ -300,7 +315,9 @@ func c15Prime(w *tsaWorld, media, keyName string) {
 	}
 }
 
-func c15Body(c *mc.Ctx, media, scheme, keyName string) { c15BodyN(c, media, scheme, keyName, len(c15Behaviours)) }
+func c15Body(c *mc.Ctx, media, scheme, keyName string) {
+	c15BodyN(c, media, scheme, keyName, len(c15Behaviours))
+}
 
 // c15BodyN restricts the authority's behaviour to the first nBehaviours of the alphabet.
 func c15BodyN(c *mc.Ctx, media, scheme, keyName string, nBehaviours int) {
@@ -308,6 +325,7 @@ func c15BodyN(c *mc.Ctx, media, scheme, keyName string, nBehaviours int) {
 	c15Prime(w, media, keyName)
 	useTS := c.ChooseFree("timestamper", 2) == 0 // 0 = set, 1 = nil
 	derive := c.ChooseFree("request-derived-with-WithContext", 2) == 1
+	nilRoots := c.Choose("TSARootCAs", 2) == 1 // 1: the request names no TSA roots at all (nil)
 	bi := 0
 	if useTS && scheme == envenc.SchemeX509 {
 		bi = c.ChooseFree("tsa-behaviour", nBehaviours)
@@ -364,6 +382,9 @@ func c15BodyN(c *mc.Ctx, media, scheme, keyName string, nBehaviours int) {
 		}
 		req.Timestamper = ts
 	}
+	if nilRoots {
+		req.TSARootCAs = nil
+	}
 	validatorCalls := 0
 	var validatedChain []*x509.Certificate
 	if vmode != 0 {
@@ -397,6 +418,8 @@ func c15BodyN(c *mc.Ctx, media, scheme, keyName string, nBehaviours int) {
 	why := ""
 	if timestamping {
 		switch {
+		case nilRoots:
+			want, why = false, "the request names no TSA roots (the host's trust store is not the caller's)"
 		case !b.valid:
 			want, why = false, "TSA behaviour "+b.name
 		case vmode == 2:
